@@ -9,6 +9,14 @@
 //
 // Output:   none | cycle <ids of errCycle.Cycle>
 //
+// Op line:  kcheck <nodes> <kadj>     with <kadj> = id:<dep><kind>,…;…  kind letters: d deps, t tool, s source label only,
+//	a data, r run-time dependency, i internal dependency
+//
+// The graph is declared through the public BuildTarget API (AddDependency / AddTool / AddSource / AddDatum /
+// AddMaybeExportedDependency(…, internal / runtime)) and resolved by ResolveDependencies, so Dependencies() (every kind)
+// and BuildDependencies() (kinds d and t only) differ.  <kadj> lists Dependencies() in order; the kind letter is checked
+// against BuildDependencies().  The oracle judges Check() against the graph over ALL resolved dependencies.
+//
 // Op line:  seq <step> <step> …      with <step> = <nodes>/<adj> as above
 //
 // ONE detector (core.NewCycleDetectorForVerif, as BuildState keeps one per build) checks a graph that grows
@@ -304,6 +312,275 @@ func contains(xs []int, x int) bool {
 	return false
 }
 
+// ---------------------------------------------------------------- dependencies of every kind
+
+type kedge struct {
+	to   int
+	kind byte // d t s a r i
+}
+
+type kspec struct {
+	nodes []int // ids in intended label order
+	adj   map[int][]kedge
+}
+
+func parseKOp(op string) (*kspec, bool) {
+	f := strings.Split(op, " ")
+	if len(f) != 3 || f[0] != "kcheck" {
+		return nil, false
+	}
+	// reuse the plain parser for the node list and the shape of the adjacency
+	plain := make([]string, 0)
+	k := &kspec{adj: map[int][]kedge{}}
+	if f[2] != "-" {
+		for _, e := range strings.Split(f[2], ";") {
+			kv := strings.Split(e, ":")
+			if len(kv) != 2 || kv[1] == "" {
+				return nil, false
+			}
+			var ds []string
+			var id int
+			if _, err := fmt.Sscanf(kv[0], "%d", &id); err != nil || fmt.Sprint(id) != kv[0] {
+				return nil, false
+			}
+			if kv[1] != "-" {
+				for _, tok := range strings.Split(kv[1], ",") {
+					if len(tok) < 2 || !strings.ContainsRune("dtsari", rune(tok[len(tok)-1])) {
+						return nil, false
+					}
+					var to int
+					if _, err := fmt.Sscanf(tok[:len(tok)-1], "%d", &to); err != nil || fmt.Sprint(to) != tok[:len(tok)-1] {
+						return nil, false
+					}
+					k.adj[id] = append(k.adj[id], kedge{to, tok[len(tok)-1]})
+					ds = append(ds, fmt.Sprint(to))
+				}
+			}
+			if len(ds) == 0 {
+				plain = append(plain, kv[0]+":-")
+			} else {
+				plain = append(plain, kv[0]+":"+strings.Join(ds, ","))
+			}
+		}
+	}
+	adj := "-"
+	if len(plain) > 0 {
+		adj = strings.Join(plain, ";")
+	}
+	sp, ok := parseOp("check " + f[1] + " " + adj)
+	if !ok {
+		return nil, false
+	}
+	k.nodes = sp.nodes
+	return k, true
+}
+
+// buildKinded declares the graph through the public API and lets the real code resolve it.  Self-dependencies cannot be
+// declared that way (AddDependency refuses them); they go through the hook, as build dependencies.
+func buildKinded(k *kspec) *built {
+	b := &built{graph: core.NewGraph(), idOf: map[*core.BuildTarget]int{}, targets: map[int]*core.BuildTarget{}}
+	for i, id := range k.nodes {
+		t := core.NewBuildTarget(labelFor(i, len(k.nodes)))
+		b.graph.AddTarget(t)
+		b.idOf[t] = id
+		b.targets[id] = t
+	}
+	for _, id := range k.nodes {
+		t := b.targets[id]
+		for _, e := range k.adj[id] {
+			d := b.targets[e.to]
+			if e.to == id {
+				core.ResolveDependencyForVerif(t, d)
+				continue
+			}
+			switch e.kind {
+			case 'd':
+				t.AddDependency(d.Label)
+			case 't':
+				t.AddTool(d.Label)
+			case 's':
+				t.AddSource(d.Label)
+			case 'a':
+				t.AddDatum(d.Label)
+			case 'r':
+				t.IsBinary = true // only binaries may have run-time dependencies
+				t.AddMaybeExportedDependency(d.Label, false, false, false, true)
+			case 'i':
+				t.AddMaybeExportedDependency(d.Label, false, false, true, false)
+			}
+		}
+	}
+	for _, id := range k.nodes {
+		if err := b.targets[id].ResolveDependencies(b.graph); err != nil {
+			panic(err)
+		}
+	}
+	return b
+}
+
+// observeKinded: like observe, but the op line carries the kind of every dependency as the real accessors show it.
+func observeKinded(r *lib.Run, b *built, want *kspec, tag string) {
+	_, nodes, adj := b.canonical() // Dependencies(): every kind
+	wantKind := map[[2]int]byte{}
+	for id, es := range want.adj {
+		for _, e := range es {
+			if _, dup := wantKind[[2]int{id, e.to}]; !dup {
+				wantKind[[2]int{id, e.to}] = e.kind
+			}
+		}
+	}
+	var parts []string
+	nonBuild := 0
+	for _, id := range nodes {
+		inBuild := map[int]bool{}
+		for _, d := range b.targets[id].BuildDependencies() {
+			inBuild[b.idOf[d]] = true
+		}
+		var es []string
+		for _, d := range adj[id] {
+			kind := wantKind[[2]int{id, d}]
+			if kind == 0 {
+				kind = 'd'
+			}
+			isBuildKind := kind == 'd' || kind == 't'
+			if d == id {
+				isBuildKind, kind = true, 'd'
+			}
+			if isBuildKind != inBuild[d] {
+				// the accessors disagree with how the edge was declared: say what the real code says
+				if inBuild[d] {
+					kind = 'd'
+				} else {
+					kind = 'a'
+				}
+				r.Count("kinded:accessor-class-differs-from-declaration")
+			}
+			if !inBuild[d] {
+				nonBuild++
+			}
+			es = append(es, fmt.Sprintf("%d%c", d, kind))
+		}
+		v := "-"
+		if len(es) > 0 {
+			v = strings.Join(es, ",")
+		}
+		parts = append(parts, fmt.Sprintf("%d:%s", id, v))
+	}
+	kadj := "-"
+	if len(parts) > 0 {
+		kadj = strings.Join(parts, ";")
+	}
+	op := "kcheck " + lib.Nats(nodes) + " " + kadj
+	var cyc []int
+	res := lib.Safely(func() string {
+		c := core.CycleCheckForVerif(b.graph)
+		if c == nil {
+			return "none"
+		}
+		for _, t := range c {
+			cyc = append(cyc, b.idOf[t])
+		}
+		return "cycle " + lib.Nats(cyc)
+	})
+	cyclic, _ := sccCyclic(nodes, adj) // over ALL resolved dependencies
+	buildAdj := map[int][]int{}
+	for _, id := range nodes {
+		for _, d := range b.targets[id].BuildDependencies() {
+			buildAdj[id] = append(buildAdj[id], b.idOf[d])
+		}
+	}
+	buildCyclic, _ := sccCyclic(nodes, buildAdj)
+	switch {
+	case res == "panic":
+		r.OracleFail("detector-panics", op, "panic in Check")
+	case res == "none":
+		if cyclic {
+			detail := "the graph over all resolved dependencies has a cycle (Tarjan) but Check returned nil"
+			if !buildCyclic {
+				detail += "; every cycle uses a dependency that is not a build-time dependency (source/data/run-time/internal)"
+			}
+			r.OracleFail("cycle-missed", op, detail)
+		}
+	default:
+		ok := len(cyc) > 0
+		for i := range cyc {
+			if !hasEdge(adj, cyc[i], cyc[(i+1)%len(cyc)]) {
+				ok = false
+			}
+		}
+		if !cyclic {
+			r.OracleFail("acyclic-reported", op, res)
+		} else if !ok {
+			r.OracleFail("reported-not-a-cycle", op, res)
+		}
+	}
+	r.Count(tag)
+	if nonBuild > 0 {
+		r.Count("kinded:has-non-build-dependency")
+	}
+	if cyclic && !buildCyclic {
+		r.Count("kinded:cyclic-only-through-non-build-dependencies")
+	}
+	r.Emit(op, res, len(adj) > 0 && nonBuild > 0)
+}
+
+// exhaustiveKinded: every digraph without self-dependencies on n targets, every edge with each of the six kinds.
+func exhaustiveKinded(r *lib.Run, n int, kinds string) {
+	type pr struct{ a, b int }
+	var cells []pr
+	for a := 0; a < n; a++ {
+		for b := 0; b < n; b++ {
+			if a != b {
+				cells = append(cells, pr{a, b})
+			}
+		}
+	}
+	base := len(kinds) + 1
+	total := 1
+	for range cells {
+		total *= base
+	}
+	for m := 0; m < total; m++ {
+		k := &kspec{adj: map[int][]kedge{}}
+		for i := 0; i < n; i++ {
+			k.nodes = append(k.nodes, i)
+		}
+		x := m
+		for _, c := range cells {
+			d := x % base
+			x /= base
+			if d > 0 {
+				k.adj[c.a] = append(k.adj[c.a], kedge{c.b, kinds[d-1]})
+			}
+		}
+		observeKinded(r, buildKinded(k), k, fmt.Sprintf("exhaustive-kinded-n%d", n))
+	}
+}
+
+func randomKinded(r *lib.Run, maxN int) *kspec {
+	s, _ := randomSpec(r, maxN)
+	g := r.Rng
+	k := &kspec{nodes: s.nodes, adj: map[int][]kedge{}}
+	pNon := 10 + g.Intn(60)
+	for id, ds := range s.adj {
+		seen := map[int]bool{}
+		for _, d := range ds {
+			if seen[d] {
+				continue
+			}
+			seen[d] = true
+			kind := byte('d')
+			if g.Chance(pNon) {
+				kind = "sari"[g.Intn(4)]
+			} else if g.Chance(15) {
+				kind = 't'
+			}
+			k.adj[id] = append(k.adj[id], kedge{d, kind})
+		}
+	}
+	return k
+}
+
 // ---------------------------------------------------------------- sequences of checks on one detector
 
 // seqSpec: the final node order (ids in label order), the step at which each node enters the graph, and the
@@ -590,6 +867,15 @@ func exhaustiveSeq(r *lib.Run, n int) {
 }
 
 func runOp(r *lib.Run, op string, tag string) {
+	if strings.HasPrefix(op, "kcheck ") {
+		k, ok := parseKOp(op)
+		if !ok {
+			r.Emit(op, "bad-op", false)
+			return
+		}
+		observeKinded(r, buildKinded(k), k, tag)
+		return
+	}
 	if strings.HasPrefix(op, "seq") && (op == "seq" || strings.HasPrefix(op, "seq ")) {
 		replaySeq(r, op)
 		return
@@ -853,9 +1139,19 @@ func main() {
 	for i := 0; i < r.N(4000, 60000); i++ {
 		runSeq(r, randomSeq(r, []int{4, 7, 12}[i%3]), "random-seq")
 	}
-	// 5. malformed op lines (both sides must reject)
+	// 5. dependencies of every kind, declared through the public API and resolved by the real code
+	exhaustiveKinded(r, 2, "dtsari")
+	exhaustiveKinded(r, 3, "dtsari")
+	if r.Thorough() {
+		exhaustiveKinded(r, 4, "da") // 3^12 graphs: absent / build / data
+	}
+	for i := 0; i < r.N(12000, 120000); i++ {
+		k := randomKinded(r, []int{4, 4, 8, 16}[i%4])
+		observeKinded(r, buildKinded(k), k, "random-kinded")
+	}
+	// 6. malformed op lines (both sides must reject)
 	for _, op := range []string{"check", "check 0", "check 0,1 0:1", "check 0,0 0:-;0:-", "check 0 0:1", "check a 0:-",
-		"check 0 0:-;1:-", "chk 0 0:-", "check 0 0:-:-", "check 0 0:-,", "seq", "seq 0", "seq 0/0:1", "seq 0/0:-/1"} {
+		"check 0 0:-;1:-", "chk 0 0:-", "check 0 0:-:-", "check 0 0:-,", "seq", "seq 0", "seq 0/0:1", "seq 0/0:-/1", "kcheck 0,1 0:1x;1:-", "kcheck 0,1 0:1;1:-", "kcheck 0 0:5d"} {
 		runOp(r, op, "malformed")
 	}
 }
